@@ -4,6 +4,7 @@ runs the *model definitions the theorems are about* and prints one canonical lin
 observation. The harness prints the same lines from the real library; `diff` is the verdict.
 -/
 import MRL.Model.Disk
+import MRL.Model.PowerLoss
 import MRL.Proofs.Journal
 import MRL.Model.FileName
 import MRL.Model.Panic
@@ -143,6 +144,11 @@ structure St where
   opsRev : List OsOp := []
   /-- incremental crash-image cache: image after the first `baseK` operations -/
   baseK : Nat := 0
+  /-- the same operations with the two kinds of `fsync` kept apart (`toOsOpsP`), newest first -/
+  opsPRev : List OsOpP := []
+  /-- incremental power-loss cache: `prun (PState.init []) (first pBaseK operations)` -/
+  pBaseK : Nat := 0
+  pBase : PState := PState.init []
   baseImg : Image := []
   /-- `snapshot` / `restore` of the directory (damage campaigns) -/
   snap : Image := []
@@ -154,7 +160,9 @@ def geom : Geom := { B := Consts.BLOCK, K := Consts.BLOCKS_PER_FILE_VERIF, hB :=
 
 def St.absorb (st : St) (es : List Effect) : St :=
   let (b, ops) := toOsOps Consts.FRAME_NUM_BYTES st.buf es
-  { st with buf := b, pending := ops.reverse ++ st.pending, opsRev := ops.reverse ++ st.opsRev }
+  let opsP := (toOsOpsP Consts.FRAME_NUM_BYTES st.buf es).2
+  { st with buf := b, pending := ops.reverse ++ st.pending, opsRev := ops.reverse ++ st.opsRev,
+            opsPRev := opsP.reverse ++ st.opsPRev }
 
 /-- bring `disk` up to date -/
 def St.sync (st : St) : St :=
@@ -184,10 +192,12 @@ def openOn (st : St) (img : Image) (toks : List String) (failAt : Option Nat) : 
   let policy := parsePolicy (toks.getD 1 "always:flush")
   -- the panic-instrumented twin decides first whether the checked u64 arithmetic of the real
   -- code would overflow during this recovery
-  let order := match recoverPre geom img policy failAt with
+  -- the reader ignores what lies beyond the nominal file size (`recoverC` = `recover ∘ clipImage`)
+  let imgR := clipImage geom img
+  let order := match recoverPre geom imgR policy failAt with
     | .ok (lp, _, _) => parseOrderIn lp.queues toks
     | .error _ => []
-  match recoverP geom img policy order failAt with
+  match recoverP geom imgR policy order failAt with
   | .error () => ({ st with log := none, disk := img, pending := [], buf := {} }, ["O PANIC"])
   | .ok res =>
   match res with
@@ -195,7 +205,7 @@ def openOn (st : St) (img : Image) (toks : List String) (failAt : Option Nat) : 
   | .error .corruption => ({ st with log := none, disk := img, pending := [], buf := {} }, ["O err:corruption"])
   | .ok r =>
     -- journal: the GC pass of `open` may have written empty-queue positions
-    let j := match recoverPre geom img policy failAt with
+    let j := match recoverPre geom imgR policy failAt with
       | .ok (lp, _, _) => st.journal ++ lp.gcJ geom order
       | .error _ => st.journal
     let ok := st.journalOk && jcheck r.log j
@@ -217,7 +227,7 @@ def callOf (toks : List String) : Option Call :=
 /-- one operation on a state; returns output lines -/
 def runOp (msz : Nat) (jc : Bool) (st : St) (toks : List String) : St × List String :=
   match toks with
-  | "open" :: _ => openOn { st with opsRev := [], baseK := 0, baseImg := [], journal := [], journalOk := jc } [] toks none
+  | "open" :: _ => openOn { st with opsRev := [], baseK := 0, baseImg := [], opsPRev := [], pBaseK := 0, pBase := PState.init [], journal := [], journalOk := jc } [] toks none
   | "reopen" :: _ =>
     -- drop: the `BufWriter` is flushed, then the directory is opened again
     let st1 := (st.absorb [.flush]).sync
@@ -336,22 +346,17 @@ def runCrash (top : Top) (toks : List String) : Top × List String :=
   let m := top.main
   let (bk, bimg) := if m.baseK ≤ k then (m.baseK, m.baseImg) else (0, [])
   let bimg' := applyOsOps bimg (coalesce (((ops.drop bk).take (k - bk)).filter (· != .sync)))
-  let main' := { m with baseK := k, baseImg := bimg' }
   let img0 := crashImage bimg' (ops.drop k) 0 cut
-  -- power-loss recipe: files whose creation was not directory-fsynced are dropped, bytes written
-  -- after a file's last fdatasync read as zeros
-  let dropL : List Nat := match kvGet toks "drop" with
-    | some v => (v.splitOn ",").filterMap (fun (t : String) => t.toNat?)
-    | none => []
-  let zeroL : List (Nat × Nat) := match kvGet toks "zero" with
-    | some v => (v.splitOn ",").filterMap fun (t : String) => match t.splitOn ":" with
-        | [a, b] => match a.toNat?, b.toNat? with
-          | some f, some o => some (f, o)
-          | _, _ => none
-        | _ => none
-    | none => []
-  let img1 := img0.filter fun kv => !dropL.contains kv.1
-  let img := zeroL.foldl (fun im (fo : Nat × Nat) => mapFile im fo.1 fun c => c.take fo.2 ++ zeros (c.length - fo.2)) img1
+  -- power loss (`instant=i`): the image is `powerImage [] (first i refined operations)` of
+  -- `MRL/Model/PowerLoss.lean` (the object of `C03P.C03_posix`), computed from a cached prefix state
+  -- (`prun` is a fold: `P.prun_append`). The harness computes its image from the real trace.
+  let (main', img) := match (kvGet toks "instant").bind (·.toNat?) with
+    | some i =>
+      let opsP := m.opsPRev.reverse
+      let (pk, ps) := if m.pBaseK ≤ i then (m.pBaseK, m.pBase) else (0, PState.init [])
+      let ps' := prun ps ((opsP.drop pk).take (i - pk))
+      ({ m with baseK := k, baseImg := bimg', pBaseK := i, pBase := ps' }, ps'.image)
+    | none => ({ m with baseK := k, baseImg := bimg' }, img0)
   let (side, out) := openOn {} img (toks.drop 2) ((kvGet toks "fail").bind (·.toNat?))
   ({ top with main := main', side := side }, dirLine img :: out)
 
